@@ -45,3 +45,7 @@ for pl in (2, 5):
     OBS.append(Ob(['C06', 'C14', 'C01'], 'dedup_json_pre%d' % pl, 'jd_dd', 'harness/dedup.c', 'h_dedup', defs=['UNIT_H="jd_dd.h"', 'PRELEN=%d' % pl], unwind=14, cap=300, hunwind=12, fs=512,
         desc='parseStringValue of "ab\\u0000cd" into a pool holding one string of %d symbolic bytes: full length kept, shared iff identical, reference count exact (StringBuilder::save / StringPool)' % pl,
         bound='all values of the %d bytes of the pre-existing string' % pl))
+UNITS += [Unit('jd_num', 'wrappers/jd.cpp', defs=SM, cuts={'CUT_PARSENUMBER': r'6detail11parseNumberEPKc$'})]
+for nb in (63, 5):
+    OBS.append(Ob(['C01', 'C03', 'C12', 'C16'], 'pnumval_n%d' % nb, 'jd_num', 'harness/jd_num.c', 'h_pnumval', defs=['UNIT_H="jd_num.h"', 'NB=%d' % nb, 'NUMBER_RET=struct L_i8_i64_E'], unwind=70, fs='none', cap=300, hunwind=70,
+        desc='parseNumericValue buffer fill with parseNumber cut: %d number characters copied verbatim + NUL, one latched look-ahead' % nb, bound='all numerals of exactly %d number characters followed by any non-number byte' % nb))
